@@ -1,0 +1,15 @@
+//go:build verif
+
+// Contracts checked by /verif/govc (comment-only file; adds no code).
+
+package slices
+
+//@ func Contains
+//@ props C02 C03 C04 C08 C09 C13 C17
+//@ ensures result == exists(i, 0, len(s), s[i] == v)
+//@ loop 1 invariant forall(i, 0, rangeindex+1, s[i] != v)
+
+//@ func ContainsAny
+//@ props C02
+//@ ensures result == exists(i, 0, len(s), s[i] == v)
+//@ loop 1 invariant forall(i, 0, rangeindex+1, s[i] != v)
